@@ -8,6 +8,11 @@
 // wins, else signing fails". Verify side: PKCS#7 signatures assembled with
 // every combination of leaf validity window x token variant x attested time,
 // judged by relic verify with chain checking against a reference formula.
+//
+// status.go: the PKIStatusInfo family (every status value class x token
+// present / absent x failInfo x statusString) at the first of two URLs.
+// lifetime.go: tokens obtained through the real client and HELD while later
+// requests run through the same process, then serialised and judged.
 package main
 
 import (
@@ -55,25 +60,40 @@ var run *vlib.Run
 type behaviour struct {
 	Name       string
 	Acceptable bool
+	// Either: the statement does not decide whether this reply grants the
+	// request (a granting status that also carries failure bits); taking the
+	// token and going on to the next authority are both in order.
+	Either bool
+	// Class names the input class in violation keys (default: Name).
+	Class string
+	// Reply, if set, builds the RFC 3161 reply (status family, status.go).
+	Reply func(q *tsa.Query, t time.Time) []byte
+}
+
+func (b behaviour) class() string {
+	if b.Class != "" {
+		return b.Class
+	}
+	return b.Name
 }
 
 var behaviours = []behaviour{
-	{"valid", true},
-	{"granted-with-mods", true},
-	{"wrong-nonce", false},
-	{"absent-nonce", false},
-	{"wrong-imprint", false},
-	{"wrong-imprint-algorithm", false},
-	{"status-rejection", false},
-	{"status-waiting", false},
-	{"rejection-with-valid-token", false},
-	{"bad-token-signature", false},
-	{"signed-by-other-key", false},
-	{"no-certificate", false},
-	{"http-500", false},
-	{"garbage", false},
-	{"empty", false},
-	{"connection-dropped", false},
+	{Name: "valid", Acceptable: true},
+	{Name: "granted-with-mods", Acceptable: true},
+	{Name: "wrong-nonce", Acceptable: false},
+	{Name: "absent-nonce", Acceptable: false},
+	{Name: "wrong-imprint", Acceptable: false},
+	{Name: "wrong-imprint-algorithm", Acceptable: false},
+	{Name: "status-rejection", Acceptable: false},
+	{Name: "status-waiting", Acceptable: false},
+	{Name: "rejection-with-valid-token", Acceptable: false},
+	{Name: "bad-token-signature", Acceptable: false},
+	{Name: "signed-by-other-key", Acceptable: false},
+	{Name: "no-certificate", Acceptable: false},
+	{Name: "http-500", Acceptable: false},
+	{Name: "garbage", Acceptable: false},
+	{Name: "empty", Acceptable: false},
+	{Name: "connection-dropped", Acceptable: false},
 }
 
 var (
@@ -88,7 +108,7 @@ var (
 // statusHang tells the authority's handler to hold the request open without answering.
 const statusHang = -1
 
-var hangBehaviour = behaviour{"hang-until-client-timeout", false}
+var hangBehaviour = behaviour{Name: "hang-until-client-timeout"}
 
 // statusStall: the authority sends 200, the headers and the first bytes of the
 // body, then nothing more. stallReleased counts stalls that ended because the
@@ -96,7 +116,7 @@ var hangBehaviour = behaviour{"hang-until-client-timeout", false}
 const statusStall = -2
 const stallCap = 30 * time.Second
 
-var stallBehaviour = behaviour{"headers-then-stalled-body", false}
+var stallBehaviour = behaviour{Name: "headers-then-stalled-body"}
 var stallReleased atomic.Int64
 
 func urlTime(idx int) time.Time { return baseTime.Add(time.Duration(idx) * time.Hour) }
@@ -148,6 +168,16 @@ func startAuthority() *httptest.Server {
 
 // answer builds the authority's reply for one behaviour.
 func answer(b behaviour, idx int, legacy bool, body []byte) (int, []byte, bool) {
+	if b.Reply != nil {
+		if legacy {
+			panic("the status family exists in the RFC 3161 protocol only")
+		}
+		q, err := tsa.ParseQuery(body)
+		if err != nil {
+			return 400, []byte("bad request"), false
+		}
+		return 200, b.Reply(q, urlTime(idx)), false
+	}
 	if b.Name == hangBehaviour.Name {
 		return statusHang, nil, false
 	}
@@ -299,7 +329,8 @@ func copyFile(src, dst string) []byte {
 // {valid, http-500, never answers} under a 1 s client timeout: an authority
 // that holds the connection open is one more unacceptable answer, and the
 // caller's own context is still live when the client gives up on it.
-func signTasks(hang bool) []func() {
+func signTasks(mode string) []func() {
+	hang := mode == "hang"
 	nurlsList := []int{1, 2}
 	if run.Thorough() {
 		nurlsList = []int{1, 2, 3}
@@ -314,11 +345,23 @@ func signTasks(hang bool) []func() {
 			}
 		}
 	}
+	if mode == "status" {
+		// the status field exists in the RFC 3161 protocol only; two URLs: the
+		// first answers with a member of the status family, the second decides
+		// whether there is anybody to fail over to
+		nurlsList = []int{2}
+		usePaths = nil
+		for _, p := range paths {
+			if !p.Legacy {
+				usePaths = append(usePaths, p)
+			}
+		}
+	}
 	var tasks []func()
 	for _, p := range usePaths {
 		for _, nurls := range nurlsList {
 			p, nurls := p, nurls
-			tasks = append(tasks, func() { signPhase(p, nurls, hang) })
+			tasks = append(tasks, func() { signPhase(p, nurls, mode) })
 		}
 	}
 	return tasks
@@ -328,7 +371,12 @@ func signTasks(hang bool) []func() {
 // once per process from the configuration, so every (attach path, URL count)
 // configuration gets a fresh process instead of the harness reaching into the
 // client's private state.
-func signPhase(p attachPath, nurls int, hang bool) {
+func signPhase(p attachPath, nurls int, mode string) {
+	hang := mode == "hang"
+	olabel := "sign:"
+	if mode == "status" {
+		olabel = "status-family:"
+	}
 	srv, dir := startAuthority(), scratchDir()
 	defer srv.Close()
 	defer os.RemoveAll(dir)
@@ -361,16 +409,31 @@ func signPhase(p attachPath, nurls int, hang bool) {
 				}
 			}
 			if hang {
-				alphabet = []behaviour{behaviours[0], {"http-500", false}, hangBehaviour, stallBehaviour}
+				alphabet = []behaviour{behaviours[0], {Name: "http-500", Acceptable: false}, hangBehaviour, stallBehaviour}
+			}
+			// alphabetOf: the answers the authority behind URL idx chooses from
+			alphabetOf := func(idx int) []behaviour { return alphabet }
+			if mode == "status" {
+				first := statusFamily(p.Name == "ps(authenticode-oid)" || run.Thorough())
+				second := []behaviour{behaviours[0], {Name: "status-rejection"}}
+				alphabetOf = func(idx int) []behaviour {
+					if idx == 0 {
+						return first
+					}
+					return second
+				}
 			}
 			st := mc.Explore(mc.Options{MaxDeviations: -1}, func(c *mc.Ctx) {
 				var seq []string
+				var chosen []behaviour
 				asked := map[int]int{}
 				srvMu.Lock()
 				current = func(idx int, legacy bool, body []byte) (int, []byte, bool) {
 					asked[idx]++
-					b := alphabet[c.Choose(len(alphabet), fmt.Sprintf("url%d", idx))]
+					al := alphabetOf(idx)
+					b := al[c.Choose(len(al), fmt.Sprintf("url%d", idx))]
 					seq = append(seq, fmt.Sprintf("u%d:%s", idx, b.Name))
+					chosen = append(chosen, b)
 					return answer(b, idx, legacy, body)
 				}
 				srvMu.Unlock()
@@ -413,12 +476,24 @@ func signPhase(p attachPath, nurls int, hang bool) {
 					run.Violation("ts-sign:no-deadline-on-a-stalled-reply:"+p.Name, fmt.Sprintf("%s: timestamp.timeout is 1 s; the client was still waiting for the rest of a reply %v after its headers (the authority let go first)", desc, stallCap), replay)
 					return
 				}
-				if panicked != "" {
-					last := seq[len(seq)-1]
-					run.Violation("ts-sign:panic-on-reply:"+last[strings.Index(last, ":")+1:], desc+": signing crashes: "+panicked, replay)
+				last := "nobody-asked"
+				if len(seq) > 0 {
+					last = chosen[len(chosen)-1].class()
+				} else if serr != nil && panicked == "" {
+					// refused before any authority was asked: nothing attached, nothing omitted
+					run.Outcome(olabel + p.Name + ":refused-before-any-request")
 					return
 				}
-				if len(seq) > 1 {
+				// succeedsKey: status family members are one input class whatever the attach path
+				succeedsKey := "ts-sign:succeeds-without-acceptable-timestamp:" + p.Name + ":" + last
+				if mode == "status" && len(chosen) > 0 && chosen[len(chosen)-1].Reply != nil {
+					succeedsKey = "ts-status:signing-succeeds-after-non-granting-reply:" + last
+				}
+				if panicked != "" {
+					run.Violation("ts-sign:panic-on-reply:"+last, desc+": signing crashes: "+panicked, replay)
+					return
+				}
+				if len(seq) > 1 || (mode == "status" && len(seq) == 1) {
 					run.Distinct(desc)
 				}
 				if len(seq) == 2 && len(c.Trace) == 2 && c.Trace[0] == 2 {
@@ -427,12 +502,14 @@ func signPhase(p attachPath, nurls int, hang bool) {
 				// reference: the first acceptable answer, in URL order
 				want := -1
 				for i := 0; i < nurls && want < 0; i++ {
-					// the i-th asked URL got behaviour seq[i] if it was asked at all
-					if i < len(seq) {
-						for _, b := range alphabet {
-							if strings.HasSuffix(seq[i], ":"+b.Name) && strings.HasPrefix(seq[i], fmt.Sprintf("u%d:", i)) && b.Acceptable {
-								want = i
-							}
+					// the i-th asked URL got behaviour chosen[i] if it was asked at all
+					if i < len(seq) && strings.HasPrefix(seq[i], fmt.Sprintf("u%d:", i)) {
+						switch {
+						case chosen[i].Acceptable:
+							want = i
+						case chosen[i].Either && i == len(seq)-1 && serr == nil:
+							// undecided by the statement and the client took it: judged as taken
+							want = i
 						}
 					}
 				}
@@ -472,7 +549,7 @@ func signPhase(p attachPath, nurls int, hang bool) {
 						case !timeOK:
 							run.Violation("ts-sign:token-of-wrong-authority-attached:"+p.Name, desc, replay)
 						default:
-							run.Outcome("sign:" + p.Name + ":stamped-by-url" + fmt.Sprint(want))
+							run.Outcome(olabel + p.Name + ":stamped-by-url" + fmt.Sprint(want))
 						}
 						return
 					}
@@ -489,7 +566,7 @@ func signPhase(p attachPath, nurls int, hang bool) {
 					if !cs.SigningTime.Equal(urlTime(want)) {
 						run.Violation("ts-sign:token-of-wrong-authority-attached:"+p.Name, fmt.Sprintf("%s: attested time %s, authority %d issues %s", desc, cs.SigningTime, want, urlTime(want)), replay)
 					}
-					run.Outcome("sign:" + p.Name + ":stamped-by-url" + fmt.Sprint(want))
+					run.Outcome(olabel + p.Name + ":stamped-by-url" + fmt.Sprint(want))
 					return
 				}
 				// no acceptable authority: signing must fail and leave no artifact
@@ -499,8 +576,7 @@ func signPhase(p attachPath, nurls int, hang bool) {
 					if has {
 						what = "an artifact carrying the unacceptable token"
 					}
-					last := seq[len(seq)-1]
-					run.Violation("ts-sign:succeeds-without-acceptable-timestamp:"+p.Name+":"+last[strings.Index(last, ":")+1:], desc+": signing succeeded with "+what, replay)
+					run.Violation(succeedsKey, desc+": signing succeeded with "+what, replay)
 					return
 				}
 				if serr == nil {
@@ -510,25 +586,27 @@ func signPhase(p attachPath, nurls int, hang bool) {
 					} else if len(sigs) > 0 && sigs[len(sigs)-1].X509Signature.CounterSignature != nil {
 						what = "an artifact carrying the unacceptable token"
 					}
-					last := seq[len(seq)-1]
-					run.Violation("ts-sign:succeeds-without-acceptable-timestamp:"+p.Name+":"+last[strings.Index(last, ":")+1:], desc+": signing succeeded with "+what, replay)
+					run.Violation(succeedsKey, desc+": signing succeeded with "+what, replay)
 					return
 				}
 				if len(seq) != nurls {
 					// gave up before asking everybody
-					last := seq[len(seq)-1]
-					run.Violation("ts-sign:no-failover-after:"+last[strings.Index(last, ":")+1:]+":"+p.Name, desc+": "+serr.Error(), replay)
+					run.Violation("ts-sign:no-failover-after:"+last+":"+p.Name, desc+": "+serr.Error(), replay)
 				}
 				if _, err := os.Stat(out); err == nil {
 					run.Violation("ts-sign:artifact-left-after-failure:"+p.Name, desc, replay)
 				}
-				run.Outcome("sign:" + p.Name + ":refused")
+				run.Outcome(olabel + p.Name + ":refused")
 			})
 			run.AddStates(st.Executions)
 			run.AddTransitions(st.ChoicePoints)
 			label := "sign_sequences"
 			if hang {
 				label = "sign_sequences_with_hanging_authority"
+			}
+			if mode == "status" {
+				label = "sign_sequences_status_family"
+				run.Set("status_family_size:"+p.Name, len(alphabetOf(0)))
 			}
 			run.Set(fmt.Sprintf("%s:%s:%d-urls", label, p.Name, nurls), st.Executions)
 		}
@@ -1041,7 +1119,7 @@ func cachePhase() {
 		{"token-of-this-signature-damaged-near-its-end", flipAt(genuineA, len(genuineA)-150), false, false},
 		{"connection-dropped", genuineA, false, true},
 	}
-	auth := []behaviour{behaviours[0], {"wrong-imprint", false}, {"http-500", false}}
+	auth := []behaviour{behaviours[0], {Name: "wrong-imprint", Acceptable: false}, {Name: "http-500"}}
 	n := 0
 	for _, e := range entries {
 		for _, failSet := range []bool{false, true} {
@@ -1132,11 +1210,14 @@ func main() {
 	log.SetOutput(io.Discard)
 	run = vlib.NewRun("C10", "model_checking")
 	// one process per configuration of the (process-wide) timestamp client
-	tasks := append(signTasks(false), signTasks(true)...)
+	tasks := append(signTasks(""), signTasks("hang")...)
+	tasks = append(tasks, signTasks("status")...)
+	tasks = append(tasks, lifetimeTasks()...)
 	tasks = append(tasks, cachePhase, constructionPhase, verifyPhase)
 	if run.Fork(len(tasks)) {
-		run.Rule("sign side: every sequence of authority behaviours (16 for RFC 3161, 9 for the legacy protocol) over 1-2 (thorough 3) configured URLs, explored as a choice tree that ends at the first acceptable answer, x 9 attach paths (5 with an RSA key, 3 with ECDSA P-256, cosign's annotation read by the harness itself), through the real pipeline and HTTP client against a loopback authority; verify side: 3 leaf validity windows x {no token, valid token under either OID, token grafted from another signature} x 4 authorities x 7 attested times, all cases under one shared trust pool and judged twice (list forwards, then backwards). states = executions; distinct_nontrivial = sign sequences with >=2 requests + verify cases. Hanging authorities: every sequence over {valid, http-500, never answers} for 2 (thorough 3) URLs under a 1 s client timeout, on one RFC 3161 and the legacy path. Timestamp cache: a loopback memcached owned by the harness; 7 cache contents for this signature's key x store accepts / refuses new entries x 3 authority answers, through the real gomemcache client")
-		run.Assume("acceptable = status granted / granted-with-mods, nonce echoed, imprint (algorithm and value) equal to the digest of this signature value, token signature valid under the embedded authority certificate")
+		run.Rule("sign side: every sequence of authority behaviours (16 for RFC 3161, 9 for the legacy protocol) over 1-2 (thorough 3) configured URLs, explored as a choice tree that ends at the first acceptable answer, x 9 attach paths (5 with an RSA key, 3 with ECDSA P-256, cosign's annotation read by the harness itself), through the real pipeline and HTTP client against a loopback authority; verify side: 3 leaf validity windows x {no token, valid token under either OID, token grafted from another signature} x 4 authorities x 7 attested times, all cases under one shared trust pool and judged twice (list forwards, then backwards). states = executions; distinct_nontrivial = sign sequences with >=2 requests + verify cases. Hanging authorities: every sequence over {valid, http-500, never answers} for 2 (thorough 3) URLs under a 1 s client timeout, on one RFC 3161 and the legacy path. Timestamp cache: a loopback memcached owned by the harness; 7 cache contents for this signature's key x store accepts / refuses new entries x 3 authority answers, through the real gomemcache client. Status family (RFC 3161 attach paths, 2 URLs): the first authority answers with every member of {18 PKIStatus values: 0..5, -1, 6, and values that become 0 or 1 when cut to 8/16/32 bits, negative and positive, one beyond 64 bits} x {no token, the valid token for this request} (x {failInfo absent, empty, badAlg, badRequest, systemFailure} x {statusString absent, present} on the ps path; thorough: on every path), the second with {valid, rejection}; only status 0 and 1 with the token may end in that token being attached (0/1 with failure bits: either reading accepted). Token lifetime (one process per client configuration: plain, rate-limited, memcached; tsclient.New, GOMAXPROCS 1): every history of 3 (thorough 4) requests over {RFC 3161 x 4 reply shapes, legacy x 3 reply shapes} plus the first request repeated, every token held so far serialised and judged again after every later reply; then 3 requests in flight at once with the replies released one at a time in each of the 6 orders or all together, RFC 3161 and legacy")
+		run.Assume("token lifetime: a held token is judged by what it serialises to when its holder gets round to it: byte-identical to a token the authority issued for that request, or else (re-encoded) every SignerInfo verifies under the embedded certificates and the imprint / signed content is this signature value, decided by the harness's CMS walker and Go crypto (self-checked against right / wrong / damaged tokens at start); the client is never asked to keep more than 3 requests in flight, a client that does not overlap them within 45 s is reported as not judged")
+		run.Assume("acceptable = status granted (0) / granted-with-mods (1) and nothing else (RFC 3161 2.4.2: for any other value no token was issued), nonce echoed, imprint (algorithm and value) equal to the digest of this signature value, token signature valid under the embedded authority certificate")
 		run.Assume("the authority's tokens are built by verif/tsa (validated against `openssl ts -verify` at development time); a hanging authority holds the request open until the client's own timeout (1 s, the smallest configurable) closes it, a stalling one sends headers and three body bytes and then holds the connection (a client that is still waiting 30 s later, 30 times its configured timeout, has no deadline on the body): the only real-time waits in this check; when a healthy authority misses that timeout too the sequence is reported as not judged, never as a violation")
 		run.Set("processes", len(tasks))
 		run.Finish()
